@@ -13,7 +13,10 @@ MANIFEST = dict(
     technique="Coq theorem on repeated move_to_end (stable partition, induction over the key list) + kernel-checked option-independence evaluation on the slot product x a covering option family through the composed models + extracted-model correspondence under options",
     text=("Coq (Props/C06.v): [universal] the loop of OrderedDict.move_to_end calls that implements separate_complex_types yields exactly the non-moved items in their order followed by the moved items in their order (for every key predicate and every duplicate-free dictionary); "
           "[finite] for every root-level document of the slot product and each of six option sets covering every value of every option, loading the formatted text equals loading the default formatting - evaluated by the kernel through parser and printer models. "
-          "PARTIAL: the universal statement for all dictionaries and all indents is not a theorem; the hunter runs option sets drawn from the full 9x2x2x3x2x2x2 product (all of it in the thorough tier on a document sample) on corpus files and generated documents, "
+          "[universal, Proofs/PrintU*.v] the printer factors through a layout-free abstract document: success, the exception raised and the dictionary left behind do not depend on indent, spacer, newlinechar, end_comment or align_values; "
+          "the content an independent reader (Spec/Reader.v) finds in the text is the same under any two layouts and, up to the quote character, under either quote - for every dictionary whose printed pieces are complete token sequences and layouts of blanks with a line-breaking newlinechar; "
+          "each guard comes with a refutation witness (newlinechar ' ' with end_comment; a key whose upper-casing is longer than the key glued to its value by align_values). "
+          "PARTIAL: composing the reader's tokens with the parser model for all dictionaries is not a theorem; the hunter runs option sets drawn from the full 9x2x2x3x2x2x2 product (all of it in the thorough tier on a document sample) on corpus files and generated documents, "
           "and checks that only block-valued keys move; the extracted printer is compared with the real one under the same options, including the dictionary after the call."),
     design_ref="DESIGN.md 7/C06",
     note="C06: documents whose strings contain the chosen quote character are outside the guarantee; newlinechar ' ' only for documents without comments.")
